@@ -331,8 +331,8 @@ def check_once(case):
 # ---------------------------------------------------------------------------------------------
 # (4) containers are lazy through the operations that only move elements around: a DEAD neighbour (element, field, default,
 # unused argument) is never evaluated when only E is consumed, and a DEAD element is never evaluated when only the size / the
-# names / the type of the container is asked for. (D = dead expression, E = the live one. std.foldl/foldr are deliberately
-# absent: their accumulator is forced at every step by definition.)
+# names / the type of the container is asked for. (D = dead expression, E = the live one. A fold forces the *result* of each
+# step by definition, so only arguments the folding function ignores are dead.)
 LAZY = [
  "([D, E] + [D])[1]", "([D] + [E, D])[1]", "[D, E, D][1:2][0]", "[D, E, D][1:][0]", "[D, E, D][:2][1]", "[D, E, D, E][1::2][0]", "std.reverse([D, E])[0]",
  "std.map(function(x) x, [D, E])[1]", "std.map(function(x) [x], [D, E])[1][0]", "std.mapWithIndex(function(i, x) x, [D, E])[1]",
@@ -356,6 +356,17 @@ LAZY = [
  "std.length(std.mapWithKey(function(k, v) D, {a: 1})) == 1 || D", "std.length(std.objectKeysValues({a: D})) == 1 || D", "std.length(std.slice([D, D, D], 0, 2, 1)) == 2 || D",
  "std.length(std.sort([D])) == 1 || D", "std.length(std.uniq([D])) == 1 || D", "std.length(std.set([D])) == 1 || D", "std.length(std.join([D], [[1], [2]])) == 3 || D",
  "std.length(std.remove([1, D], 1)) == 1 || D", "std.length(std.removeAt([D, D], 0)) == 1 || D",
+ # callbacks that ignore a parameter: what is passed for it is never evaluated (the initial value and the elements of a fold, the
+ # elements behind a constant key function, the value behind a key-only mapping, elements after the deciding one)
+ "std.foldl(function(acc, x) E, [D, D], D)", "std.foldr(function(x, acc) E, [D, D], D)", "std.foldl(function(acc, x) acc, [D, D], E)", "std.foldr(function(x, acc) acc, [D, D], E)",
+ "std.foldl(function(acc, x) acc, [], E)", "std.foldr(function(x, acc) acc, [], E)", "std.foldl(function(acc, x) acc + 1, [D, D], 0) == 2 || D", "std.foldr(function(x, acc) acc + 1, [D, D], 0) == 2 || D",
+ "std.length(std.sort([D, D], function(x) 1)) == 2 || D", "std.length(std.set([D, D], function(x) 1)) == 1 || D", "std.length(std.uniq([D, D], function(x) 1)) == 1 || D",
+ "std.length(std.filter(function(x) false, [D, D])) == 0 || D", "std.length(std.filterMap(function(x) false, function(x) D, [D])) == 0 || D",
+ "std.mapWithKey(function(k, v) k, {a: D}).a == 'a' || D", "std.map(function(x) E, [D])[0]", "std.flatMap(function(x) [E], [D])[0]", "std.makeArray(1, function(i) E)[0]",
+ "std.any([true, D]) || D", "std.all([false, D]) || true", "std.member([1, D], 1) || D", "std.contains([1, D], 1) || D",
+ "std.length(std.setUnion([D], [], function(x) 1)) == 1 || D", "std.length(std.setInter([D], [], function(x) 1)) == 0 || D",
+ "std.get({a: E, b: D}, 'a')", "std.mapWithIndex(function(i, x) i, [D, D])[1] == 1 || D", "std.objectKeysValues({a: D})[0].key == 'a' || D",
+ "std.slice([D, E], 1, null, null)[0]", "std.length(std.slice([D, D], null, null, 2)) == 1 || D",
 ]
 
 
